@@ -1090,6 +1090,9 @@ func runCase(raw json.RawMessage) interface{} {
 	if c.Mode == "lock" {
 		return runLock(&c)
 	}
+	if c.Mode == "race" {
+		return runRace(&c)
+	}
 	steps, vs := runSeq(c.Cfg, c.Ops, true)
 	if vs == nil {
 		vs = []viol{}
@@ -1304,6 +1307,56 @@ func runLock(c *caseIn) interface{} {
 			}
 			w.close()
 		}
+	}
+	return out
+}
+
+// ---------------------------------------------------------------------------------------------
+// free-running race: two logins of ONE client on two connections, started together on separate goroutines, no gating.
+// handleHandshake's GetByClientID / Remove(old) / UpdateAuth are three critical sections; if both logins read the index
+// before either writes it, neither evicts the other.  Counts how often that happens (contention loop, supplement only).
+// ---------------------------------------------------------------------------------------------
+type raceOut struct {
+	Runs     int `json:"runs"`
+	TwoLive  int `json:"two_live"`
+	OtherBad int `json:"other_bad"`
+}
+
+func runRace(c *caseIn) interface{} {
+	out := &raceOut{}
+	ops := [][]int{{opAccept, 1}, {opAccept, 2}, {opHandshake, 1, 0, 7, 1}, {opHandshake, 2, 0, 7, 1}}
+	for rep := 0; rep < c.Reps; rep++ {
+		w := newWorld(c.Cfg, ops)
+		w.apply(ops[0])
+		w.apply(ops[1])
+		var wg sync.WaitGroup
+		start := make(chan struct{})
+		for _, id := range []string{"c1", "c2"} {
+			wg.Add(1)
+			go func(id string) {
+				defer wg.Done()
+				payload, _ := json.Marshal(&packet.HandshakeRequest{ClientID: 7, Version: "V3", Protocol: "tcp", ConnectionType: "control"})
+				<-start
+				_ = w.sm.HandlePacket(&types.StreamPacket{ConnectionID: id, Timestamp: time.Now(),
+					Packet: &packet.TransferPacket{PacketType: packet.Handshake, Payload: payload}})
+			}(id)
+		}
+		w.auth.kind, w.auth.x = 0, 7
+		close(start)
+		wg.Wait()
+		live := 0
+		for _, cc := range w.sm.VerifClientRegistry().List() {
+			if cc.Authenticated && cc.ClientID == 7 && !w.closedOf(cc) {
+				live++
+			}
+		}
+		out.Runs++
+		if live == 2 {
+			out.TwoLive++
+		} else if live != 1 || w.sm.GetControlConnectionByClientID(7) == nil {
+			out.OtherBad++
+		}
+		w.close()
 	}
 	return out
 }
